@@ -2154,7 +2154,12 @@ def lang_filter_table(ctx, rule, deep=False):
     me = matcher_obj()
     bad = None
     n = 0
-    for r_, t_ in itertools.product(ranges, tags):
+    # the value of a lang attribute is arbitrary text: subtags that no registry knows (long, with other characters, empty) are
+    # subtags all the same, and are skipped like any other
+    odd_tags = ['de-abcdefghi-ch', 'zh-cmn_hans-cn', 'de--ch', 'de-\u00e9-ch', 'de-ab.c-ch', 'en-abcdefghijklmnop', 'en-a1b2c3d4e-us', '-en', 'en-', '-', 'de-1996-ch',
+                'de-latn-x-ch', 'de-abcdefgh-ch', 'de-ab-abcdefghi-cd-ch', 'en us', 'en-us ', 'de-CH-1901', 'DE-ch']
+    odd_ranges = ['de-ch', 'zh-cn', 'en-us', '*-ch', 'de-*-ch', 'de', 'en', '*', 'de-latn-ch', 'de-1996', 'en-abcdefghijklmnop', 'de-abcdefghi']
+    for r_, t_ in list(itertools.product(ranges, tags)) + list(itertools.product(odd_ranges, odd_tags)):
         try:
             got = bool(call_function(ctx, fnq, [r_, t_], {}, {'util.lower': strict_lower}, me, options={'regex_engine': True}))
         except Raised as e:
